@@ -25,7 +25,7 @@ from . import _wsrig as R
 
 ID = "C15"
 LEVEL = "fault_enumeration"
-QUICK_N = 16000
+QUICK_N = 10000
 THOROUGH_N = 250000
 CHUNK = 40
 RULE = ("gen(seed): rig (raw peer as client of the real handler / as server of the real client), "
